@@ -79,6 +79,13 @@ for mode in MODES:
         elif mode == 'RAW':
             for i, nm in enumerate(('hue', 'saturation', 'brightness', 'kelvin')):
                 c.ensures(nm, 'sent_u16(R[%d]) == sent_u16(old(self._reg.%s))' % (i, nm))
+        else:
+            # rgb: the saved default is the raw form of the RGB registers (through their HSV), exactly as a plain `set` converts them
+            rgb = ', '.join('old(self._reg.%s) / 100' % n for n in ('red', 'green', 'blue'))
+            c.ensures('hue', 'sent_u16(R[0]) == sent_frac(hsv_h(%s))' % rgb)
+            c.ensures('saturation', 'sent_u16(R[1]) == sent_frac(hsv_s(%s))' % rgb)
+            c.ensures('brightness', 'sent_u16(R[2]) == sent_frac(hsv_v(%s))' % rgb)
+            c.ensures('kelvin', 'sent_u16(R[3]) == sent_u16(round_he(old(self._reg.kelvin)))')
 
         # ---- set "L" row/column or begin..end: one set_matrix, cells converted exactly as a plain set
         def setup(b, case, mode=mode, kind=kind):
